@@ -31,6 +31,7 @@ _REAL = {
     "os_fsync": os.fsync, "os_ftruncate": os.ftruncate, "FileIO": io.FileIO,
     "os_rename": os.rename, "os_replace": os.replace, "isdir": os.path.isdir,
     "os_makedirs": os.makedirs, "os_listdir": os.listdir,
+    "os_getcwd": os.getcwd, "os_getcwdb": os.getcwdb, "os_chdir": os.chdir,
 }
 FAKE_FD_BASE = 1_000_000   # never a valid real descriptor: a stray real syscall gets EBADF
 
@@ -206,6 +207,7 @@ class SimRawFile(io.RawIOBase):
         super().__init__()
         self._fs = fs
         self._path = path
+        self._alias = fs.alias(path)
         self.name = name
         self._readable = readable
         self._writable = writable
@@ -234,7 +236,7 @@ class SimRawFile(io.RawIOBase):
         n = max(0, min(len(b), len(data) - self._pos))
         b[:n] = data[self._pos:self._pos + n]
         self._pos += n
-        self._fs.log.add(self._path, "r", len(b), n)
+        self._fs.log.add(self._alias, "r", len(b), n)
         return n
 
     def write(self, b):
@@ -246,7 +248,7 @@ class SimRawFile(io.RawIOBase):
             data.extend(b"\0" * (self._pos - len(data)))
         data[self._pos:self._pos + n] = bytes(b)
         self._pos += n
-        self._fs.log.add(self._path, "w", n, n)
+        self._fs.log.add(self._alias, "w", n, n)
         return n
 
     def seek(self, off, whence=0):
@@ -387,6 +389,7 @@ class SimFS:
         self.readers = {}   # path -> [TracedReader]
         self.damaged = {}   # path -> iterable of damaged offsets
         self.removed = []   # paths removed by the tool
+        self.aliases = {}       # path -> "f<k>" in order of first use (temp names may be random)
         self.whiteouts = set()  # real paths the tool "removed" (the real file is never touched)
         self.dirs = set()       # directories the tool created
         self.log = EventLog()
@@ -407,6 +410,12 @@ class SimFS:
         if isinstance(p, bytes):
             p = p.decode("utf-8", "surrogateescape")
         return p
+
+    def alias(self, path):
+        a = self.aliases.get(path)
+        if a is None:
+            a = self.aliases[path] = "f%d" % len(self.aliases)
+        return a
 
     def put(self, path, data, damaged=()):
         self.files[path] = bytearray(data)
@@ -552,8 +561,10 @@ def code_objects_of(modules):
 class World:
     """Context manager that installs every seam, and removes it again."""
 
-    def __init__(self, stdin_data=None, stdin_sched=None, stdout_sched=None, stdin_damaged=()):
+    def __init__(self, stdin_data=None, stdin_sched=None, stdout_sched=None, stdin_damaged=(),
+                 vcwd=None):
         self.fs = SimFS()
+        self.vcwd = (vcwd or VCWD).rstrip("/") + "/"
         self.log = self.fs.log
         self.stdin_sched = stdin_sched or ChunkSchedule("whole", 0)
         self.stdout_sched = stdout_sched or ChunkSchedule("whole", 0)
@@ -710,11 +721,21 @@ class World:
             p = self._vpath(path, writing=True).rstrip("/") + "/"
         except Exception:
             return False
-        if p in (SIMROOT, VCWD) or p in self.fs.dirs or any(k.startswith(p) for k in self.fs.files):
+        if p in (SIMROOT, VCWD, self.vcwd) or self.vcwd.startswith(p) or p in self.fs.dirs \
+                or any(k.startswith(p) for k in self.fs.files):
             return True
         if p.startswith(SIMROOT):
             return False
         return _REAL["isdir"](path)
+
+    def _os_getcwd(self):
+        return self.vcwd.rstrip("/") or "/"
+
+    def _os_chdir(self, path):
+        p = self._vpath(path, writing=True).rstrip("/") + "/"
+        if not self._isdir(p):
+            raise FileNotFoundError(2, "No such file or directory", path)
+        self.vcwd = p
 
     def _os_makedirs(self, path, *a, **kw):
         self.fs.dirs.add(self._vpath(path, writing=True).rstrip("/") + "/")
@@ -780,7 +801,7 @@ class World:
         """Virtual path if SimFS must serve `path`, else None (real, read-only)."""
         p = SimFS.norm(path)
         if not posixpath.isabs(p):
-            return posixpath.normpath(VCWD + p)
+            return posixpath.normpath(self.vcwd + p)
         p = posixpath.normpath(p)
         if writing or p.startswith(SIMROOT) or p in self.fs.files or p in self.fs.whiteouts:
             return p
@@ -790,6 +811,27 @@ class World:
         if isinstance(file, int) and not isinstance(file, bool):
             return self._open_fd(file, mode, *a, **kw)
         writing = bool(set(mode) & set("wax+"))
+        opener = kw.get("opener")
+        if opener is None and len(a) >= 6:
+            opener = a[5]
+        if opener is not None:
+            # e.g. tempfile: the opener returns a descriptor (ours, if it went through os.open)
+            m = set(mode)
+            flags = (os.O_RDWR if "+" in m else os.O_WRONLY if writing else os.O_RDONLY)
+            if "w" in m:
+                flags |= os.O_CREAT | os.O_TRUNC
+            elif "x" in m:
+                flags |= os.O_CREAT | os.O_EXCL
+            elif "a" in m:
+                flags |= os.O_CREAT | os.O_APPEND
+            fd = opener(file, flags)
+            kw2 = {k: v for k, v in kw.items() if k != "opener"}
+            f = self._open_fd(fd, mode, *a[:5], **kw2)
+            try:
+                f.name = file
+            except Exception:
+                pass
+            return f
         vp = self._vpath(file, writing)
         if vp is None:
             return _REAL["open"](file, mode, *a, **kw)
@@ -860,6 +902,8 @@ class World:
         io.FileIO = self._fileio
         os.rename = os.replace = self._os_rename
         os.path.isdir, os.makedirs, os.listdir = self._isdir, self._os_makedirs, self._os_listdir
+        os.getcwd, os.chdir = self._os_getcwd, self._os_chdir
+        os.getcwdb = lambda: self._os_getcwd().encode()
         sys.stdin = _StdinShell(self.stdin_buf)
         sys.stdout = self.stdout_txt
         sys.stderr = self.stderr
@@ -883,6 +927,7 @@ class World:
         io.FileIO = _REAL["FileIO"]
         os.rename, os.replace = _REAL["os_rename"], _REAL["os_replace"]
         os.path.isdir, os.makedirs, os.listdir = _REAL["isdir"], _REAL["os_makedirs"], _REAL["os_listdir"]
+        os.getcwd, os.getcwdb, os.chdir = _REAL["os_getcwd"], _REAL["os_getcwdb"], _REAL["os_chdir"]
         sys.stdin, sys.stdout, sys.stderr = s["stdin"], s["stdout"], s["stderr"]
         self._saved = None
         return False
